@@ -126,6 +126,12 @@ def _list_contains(I, o, item):
     return _member(I, o, item)
 
 
+def _list_symseq(I, o):
+    """the list as a sequence of symbolic length (for a loop under an invariant, zip, a comprehension): element i as item access gives it"""
+    from pyvc.engine import SymSeq
+    return SymSeq(o.fields['len'], lambda i: _fresh_elem(I, o, z3_of(i)), o.fields['tag'])
+
+
 def _list_index(I, o, idx):
     if isinstance(idx, bool) or not (isinstance(idx, int) or (is_z3(idx) and z3.is_int(idx))):
         raise I.exc('TypeError', 'list indices must be integers')
@@ -244,7 +250,7 @@ class RdW(c08.RW):
     """world of the reader units: C08's recording abstractions of rdqueries / Chem.Atom plus the abstract state above"""
     def __init__(self):
         c08.RW.__init__(self)
-        self.abstract['AbsList'] = {'attr': _list_attr, 'index': _list_index, 'setitem': _list_setitem, 'binop': _list_binop, 'contains': _list_contains}
+        self.abstract['AbsList'] = {'attr': _list_attr, 'index': _list_index, 'setitem': _list_setitem, 'binop': _list_binop, 'contains': _list_contains, 'symseq': _list_symseq}
         self.abstract['AbsRWMol'] = {'attr': _rw_attr}
         self.abstract['AbsBond'] = {'attr': _bond_attr}
         self.abstract['AbsQueryAtomOfMol'] = {'attr': _atom_attr}
@@ -491,7 +497,65 @@ def is_atom_constraint(I, v):
 
 
 def replay_reader(model, state, ob):
-    return None
+    """A failed reader obligation names an exception class and a reader method; the model of a tree-shaped input is not a text.  The replay therefore SEARCHES
+    for a text: grammar-generated fragments / rules (4000, fixed seed) through the real Read of the tree under test until one ends in that exception class with
+    that method on the traceback.  Found -> a concrete failing input of this very obligation; not found -> no-failing-input-found."""
+    import random
+    import re
+    import signal
+    import traceback
+    m = re.search(r'no-unexpected-exception\((\w+)\)', ob.get('name', ''))
+    if not m:
+        return None
+    exc, site = m.group(1), str(ob.get('meta', {}).get('site', ''))
+    if (exc, site) in _replay_cache:
+        return _replay_cache[(exc, site)]
+    r_ = _replay_search(exc, site)
+    _replay_cache[(exc, site)] = r_
+    return r_
+
+
+_replay_cache = {}
+
+
+def _replay_search(exc, site):
+    import random
+    import signal
+    import traceback
+    from . import C09 as c09
+    from . import real
+    from pgradd.RINGParser.Reader import Read
+
+    class _T(Exception):
+        pass
+
+    def onalarm(sig, frm):
+        raise _T()
+    rnd = random.Random(7)
+    old = signal.signal(signal.SIGALRM, onalarm)
+    try:
+        for i in range(4000):
+            txt = ' '.join(c09.gen_text(rnd, root='RINGInput', maxdepth=rnd.choice([4, 7, 9])))
+            signal.alarm(2)
+            try:
+                with real.quiet():
+                    Read(txt)
+            except _T:
+                continue
+            except Exception as e:    # noqa
+                if type(e).__name__ == exc and (not site or site.split('(')[0] in ''.join(traceback.format_tb(e.__traceback__))):
+                    signal.alarm(0)
+                    return {'failed': True, 'input': txt, 'observed': '%s: %s' % (type(e).__name__, str(e)[:120]),
+                            'expected': 'a query, RINGSyntaxError, RINGReaderError or NotImplementedError',
+                            'script': "from pgradd.RINGParser.Reader import Read\nRead(%r)\n" % txt}
+            finally:
+                signal.alarm(0)
+    finally:
+        signal.signal(signal.SIGALRM, old)
+    return {'failed': None, 'input': None, 'observed': 'no grammar-generated text among 4000 reproduced %s in %s' % (exc, site), 'expected': None}
+
+
+replay_reader.model_free = True
 
 
 def mqr_unit(method, rule, extra=None, posts=None, depth=1, pre=None):
@@ -506,7 +570,7 @@ def mqr_unit(method, rule, extra=None, posts=None, depth=1, pre=None):
         out = run_target(I, MQR, 'MolQueryReader.' + method, args, self_obj=mk_mq_reader(I))
         safe_outcome(I, out, (lambda r: posts(I, r, st)) if posts else None, site=method)
         return {'inputs': {}}
-    u = Unit('reader-safety MolQueryReader.' + method, (MQR, 'MolQueryReader.' + method), run)
+    u = Unit('reader-safety MolQueryReader.' + method, (MQR, 'MolQueryReader.' + method), run, replay_reader)
     u.world_factory = rworld
     return u
 
@@ -572,7 +636,7 @@ def bond_args_unit():
         out = run_target(I, MQR, 'MolQueryReader.ReadBondTypeBondedAtom', [i, j, kind, mq], self_obj=mk_mq_reader(I))
         safe_outcome(I, out, lambda r: [('the query keeps len(atom_names) == number of atoms', mq_inv(mq))], site='ReadBondTypeBondedAtom')
         return {'inputs': {}}
-    u = Unit('reader-safety MolQueryReader.ReadBondTypeBondedAtom', (MQR, 'MolQueryReader.ReadBondTypeBondedAtom'), run)
+    u = Unit('reader-safety MolQueryReader.ReadBondTypeBondedAtom', (MQR, 'MolQueryReader.ReadBondTypeBondedAtom'), run, replay_reader)
     u.world_factory = rworld
     return u
 
@@ -592,7 +656,7 @@ def read_unit():
                     ('... and a name', z3.BoolVal(ok and 'name' in r.fields))]
         safe_outcome(I, out, posts, site='Read')
         return {'inputs': {}}
-    u = Unit('reader-safety MolQueryReader.Read', (MQR, 'MolQueryReader.Read'), run)
+    u = Unit('reader-safety MolQueryReader.Read', (MQR, 'MolQueryReader.Read'), run, replay_reader)
     u.world_factory = rworld
     return u
 
@@ -602,8 +666,10 @@ def nonempty_prefix(I, tree):
 
 
 MQR_UNITS = [
-    mqr_unit('ReadBondTypeAtomConstraint', 'BondType', depth=0),
-    mqr_unit('ReadGroupName', 'GroupName', depth=0),
+    mqr_unit('ReadBondTypeAtomConstraint', 'BondType', depth=0,
+             posts=lambda I, r, st: [('returns a bond query object (what the connectivity constraints are built from)', z3.BoolVal(isinstance(r, Obj) and r.cls.name == 'BondQuery'))]),
+    mqr_unit('ReadGroupName', 'GroupName', depth=0,
+             posts=lambda I, r, st: [('returns the group name (a text)', z3.BoolVal(isinstance(r, str) or (is_z3(r) and z3.is_string(r))))]),
     mqr_unit('ReadAtomConstraintConnectivity', 'AtomConstraintConnectivity', posts=p_constraint),
     mqr_unit('ReadAtomConstraintRing', 'AtomConstraintRing', posts=p_constraint),
     mqr_unit('ReadAtomConstraintRadical', 'AtomConstraintRadical', posts=p_constraint),
@@ -1008,7 +1074,7 @@ def rqr_unit(method, rule, with_rq=True, posts=None, depth=1):
             return ps
         safe_outcome(I, out, allposts, site=method)
         return {'inputs': {}}
-    u = Unit('reader-safety ReactionQueryReader.' + method, (RQR, 'ReactionQueryReader.' + method), run)
+    u = Unit('reader-safety ReactionQueryReader.' + method, (RQR, 'ReactionQueryReader.' + method), run, replay_reader)
     u.world_factory = xworld
     return u
 
@@ -1045,7 +1111,7 @@ def rq_read_unit():
         out = run_target(I, RQR, 'ReactionQueryReader.Read', [], self_obj=rd)
         safe_outcome(I, out, lambda r: [('returns the reaction query object', z3.BoolVal(isinstance(r, Obj) and r.cls.name == 'ReactionQuery'))], site='Read')
         return {'inputs': {}}
-    u = Unit('reader-safety ReactionQueryReader.Read', (RQR, 'ReactionQueryReader.Read'), run)
+    u = Unit('reader-safety ReactionQueryReader.Read', (RQR, 'ReactionQueryReader.Read'), run, replay_reader)
     u.world_factory = xworld
     return u
 
@@ -1059,7 +1125,7 @@ def mapping_unit():
         out = run_target(I, RQR, 'ReactionQueryReader.LabelMapping', args, self_obj=mk_rq_reader(I))
         safe_outcome(I, out, lambda r: [('returns a mapping', z3.BoolVal(isinstance(r, dict) or (isinstance(r, Obj) and r.cls is AbsDict)))], site='LabelMapping')
         return {'inputs': {}}
-    u = Unit('reader-safety ReactionQueryReader.LabelMapping', (RQR, 'ReactionQueryReader.LabelMapping'), run)
+    u = Unit('reader-safety ReactionQueryReader.LabelMapping', (RQR, 'ReactionQueryReader.LabelMapping'), run, replay_reader)
     u.world_factory = xworld
     return u
 
